@@ -388,10 +388,28 @@ pub fn encode(src: &Sfnt, glyphs: &[Vec<u8>], metrics: &[(u16, i16)], cmap: &BTr
 }
 
 /// Derive a smaller font from `src`: the closure of `want` gids, renumbered ascending, with the given loca format.
-pub fn derive(src: &Sfnt, want: &BTreeSet<u16>, short_loca: bool, pad_to: usize) -> Result<Vec<u8>, String> {
+/// `composites_first`: glyph order .notdef, composites that carry a character (outermost first, so chains
+/// refer forward too), other composites, simple glyphs — every component reference then points at a HIGHER gid.
+pub fn derive(src: &Sfnt, want: &BTreeSet<u16>, short_loca: bool, pad_to: usize, composites_first: bool) -> Result<Vec<u8>, String> {
     let mut seeds = want.clone();
     seeds.insert(0);
-    let keep: Vec<u16> = src.closure(&seeds)?.into_iter().collect();
+    let mut keep: Vec<u16> = src.closure(&seeds)?.into_iter().collect();
+    if composites_first {
+        fn depth(src: &Sfnt, g: u16, fuel: usize) -> usize {
+            if fuel == 0 {
+                return 0;
+            }
+            src.glyph(g as usize).map(|gl| gl.comp_gids().iter().map(|&c| 1 + depth(src, c, fuel - 1)).max().unwrap_or(0)).unwrap_or(0)
+        }
+        let has_char: BTreeSet<u16> = src.cmap()?.values().copied().collect();
+        let mut rest: Vec<(u8, usize, u16)> = keep.iter().filter(|&&g| g != 0).map(|&g| {
+            let d = depth(src, g, 8);
+            let class = if d == 0 { 2 } else if has_char.contains(&g) { 0 } else { 1 };
+            (class, 100 - d.min(100), g)
+        }).collect();
+        rest.sort();
+        keep = std::iter::once(0).chain(rest.into_iter().map(|x| x.2)).collect();
+    }
     let idx: BTreeMap<u16, u16> = keep.iter().enumerate().map(|(i, &g)| (g, i as u16)).collect();
     let mut glyphs = vec![];
     let mut metrics = vec![];
